@@ -8,45 +8,59 @@ from lib.units import SeqUnit, Inconclusive
 class TimeHeapUnit(SeqUnit):
     """TimeHeap runs on the real clock with coarse epochs (see TimeHeap.tla / timeheap.go).  The adapter
     supervises its own timing margins and reports a failed margin out-of-band; such a run proves nothing
-    either way, so it is discarded and repeated (never an alarm); persistent failure = inconclusive."""
+    either way, so that flow is discarded and repeated (never an alarm); persistent failure = inconclusive."""
 
-    ATTEMPTS = 3
+    ATTEMPTS = 4
+
+    def _flow(self, ctx, marker, **flags):
+        """run the parent's unit with only the given flows enabled, repeating while the margin marker appears"""
+        saved = (self.do_mc, self.do_lts, self.do_trace)
+        fails = 0
+        try:
+            self.do_mc, self.do_lts, self.do_trace = (flags.get("mc", False) and saved[0], flags.get("lts", False) and saved[1],
+                                                      flags.get("trace", False) and saved[2])
+            for attempt in range(1, self.ATTEMPTS + 1):
+                if os.path.exists(marker):
+                    os.remove(marker)
+                nviol, ninc = len(ctx.violations), len(ctx.inconclusive)
+                extra = dict(ctx.extra)
+                counters = (ctx.replayed, ctx.validated)
+                super().run(ctx)
+                if not os.path.exists(marker):
+                    return fails
+                with open(marker) as fh:
+                    fails += len([l for l in fh.read().splitlines() if l.strip()])
+                # the machine was too slow/busy for the epoch construction: drop what this attempt concluded
+                del ctx.violations[nviol:]
+                del ctx.inconclusive[ninc:]
+                ctx.extra = extra
+                ctx.replayed, ctx.validated = counters
+            self.info["timing_margin_failures"] = fails
+            raise Inconclusive("TimeHeap: real-time margins failed in %d consecutive runs of %s (machine too loaded)"
+                               % (self.ATTEMPTS, "/".join(k for k, v in flags.items() if v)))
+        finally:
+            self.do_mc, self.do_lts, self.do_trace = saved
 
     def run(self, ctx):
         marker = os.path.join(ctx.out, "TimeHeap.margin")
         os.environ["VERIF_TIMEHEAP_MARGIN"] = marker
         try:
-            for attempt in range(1, self.ATTEMPTS + 1):
-                if os.path.exists(marker):
-                    os.remove(marker)
-                nviol = len(ctx.violations)
-                ninc = len(ctx.inconclusive)
-                do_mc, self.do_mc = self.do_mc, self.do_mc and attempt == 1
-                try:
-                    super().run(ctx)
-                finally:
-                    self.do_mc = do_mc
-                if not os.path.exists(marker):
-                    self.info["timing_margin_failures"] = 0
-                    self.info["attempts"] = attempt
-                    return
-                with open(marker) as fh:
-                    n = len([l for l in fh.read().splitlines() if l.strip()])
-                # the machine was too slow/busy for the epoch construction: drop what this attempt concluded
-                del ctx.violations[nviol:]
-                del ctx.inconclusive[ninc:]
-                self.info["timing_margin_failures"] = n
-            raise Inconclusive("TimeHeap: real-time margins failed in %d consecutive runs (machine too loaded)" % self.ATTEMPTS)
+            self._flow(ctx, marker, mc=True)
+            n = self._flow(ctx, marker, lts=True)
+            n += self._flow(ctx, marker, trace=True)
+            self.info["discarded_runs_timing_margin"] = n
         finally:
             os.environ.pop("VERIF_TIMEHEAP_MARGIN", None)
+            if os.path.exists(marker):
+                os.remove(marker)
 
 
 def units(ctx):
     return [
         SeqUnit("containers2", "Walker"),
         # few sleeping steps: every Tick is a >= 30 ms sleep
-        TimeHeapUnit("containers2", "TimeHeap", traces=(12, 50), thorough_traces=(60, 80),
-                     walks=(12, 25), thorough_walks=(60, 40)),
+        TimeHeapUnit("containers2", "TimeHeap", traces=(12, 50), thorough_traces=(30, 60),
+                     walks=(12, 25), thorough_walks=(30, 30)),
         SeqUnit("containers2", "IndexedStorage"),
         SeqUnit("containers2", "OnChangeMap"),
         SeqUnit("containers2", "SubMgr"),
